@@ -409,6 +409,12 @@ def do_ledger(repo_root, jobs):
     units = R.list_units(specs)
     res, _ = run_cached(repo, specs, units, jobs, 10000, repo_root, 'quick')
     by_label = {r['label']: r for r in res}
+    for r in res:      # what is not discharged is shown (and simply not recorded)
+        if r['status'] != 'ok':
+            print('NOT-OK', r['label'], r['status'], str(r.get('detail'))[:200])
+        for o in r['obligations']:
+            if o['kind'] != 'canary' and o['result'] != 'proved':
+                print('NOT-PROVED', r['label'], '::', o['name'][:160], '|', o['result'], (o.get('detail') or '')[:80])
     ledger = {}
     for pid in ALL_PROPS:
         sel = select_units(specs, units, pid)
